@@ -317,6 +317,11 @@ class Operation(ElementBase):
     def invert(self) -> "Operation":
         """Flips top and bottom face"""
         self.top_face, self.bottom_face = self.bottom_face, self.top_face
+
+        # side edges now run from the former top to the former bottom
+        for edge in self.side_edges:
+            edge.reverse()
+
         return self
 
     def mirror(self, normal: VectorType, origin: Optional[PointType] = None):
